@@ -145,6 +145,16 @@ def materialise(spec, path):
                 lib.gammaEnergyUpperBounds = _energy(src.gammaEnergyUpperBounds, g, spec.get("shiftE"))
             nblocks = smeta["maxScatteringBlocks"]
             band = spec.get("band", 0)
+            up = int(spec.get("upscatter") or 0)
+            if up:
+                meta["maxUpScatterGroups"] = max(int(smeta["maxUpScatterGroups"] or 0), min(up, g - 1))
+
+            def with_upscatter(dense):
+                for row in range(g):
+                    for u in range(1, up + 1):
+                        if row + u < g:
+                            dense[row, row + u] = 0.25 * dense[row, row] / u + 0.0009765625
+                return dense
             dropRx = [OPTIONAL_RX[i % len(OPTIONAL_RX)] for i in spec.get("dropRx", [])]
             dropBlocks = [i % nblocks for i in spec.get("dropBlocks", [])]
             for i, label in zip(idx, labels):
@@ -161,8 +171,10 @@ def materialise(spec, path):
                         jb = sm["jband"][j, b]
                         if band:
                             jb = max(1, min(jb, band))
-                        nm["jband"][j, b] = jb
-                        nm["jj"][j, b] = sm["jj"][j, b]
+                        # up-scatter: JJ > 1 puts jj-1 entries of row j above the diagonal (columns j+1 .. j+jj-1)
+                        jj = sm["jj"][j, b] + min(up, g - 1 - j)
+                        nm["jband"][j, b] = jb + (jj - sm["jj"][j, b])
+                        nm["jj"][j, b] = jj
                 if kind == "iso":
                     for rx in dropRx:
                         nm[rx] = 0
@@ -182,12 +194,12 @@ def materialise(spec, path):
                         continue
                     if name == "higherOrderScatter":
                         dc.higherOrderScatter = {
-                            k: sparse.csr_matrix(m.toarray()[:g, :g] * scale) for k, m in val.items()
+                            k: sparse.csr_matrix(with_upscatter(m.toarray()[:g, :g] * scale)) for k, m in val.items()
                         }
                     elif val is None:
                         continue
                     elif sparse.issparse(val):
-                        dc[name] = sparse.csr_matrix(val.toarray()[:g, :g] * scale)
+                        dc[name] = sparse.csr_matrix(with_upscatter(val.toarray()[:g, :g] * scale))
                     else:
                         arr = np.array(val[:g], dtype=float)
                         if name not in ("chi", "neutronsPerFission"):
